@@ -334,7 +334,7 @@ class Inliner:
         ystmts = [n for n in walk_no_nested(h) if isinstance(n, ast.Expr) and isinstance(n.value, ast.Yield) and n.value.value is not None]
         if len(ystmts) != len(ys):
             return None
-        if any(isinstance(n, (ast.Break, ast.Continue, ast.Return, ast.Yield, ast.YieldFrom)) for b in st.body for n in ast.walk(b)):
+        if any(isinstance(n, (ast.Break, ast.Continue, ast.Yield, ast.YieldFrom)) for b in st.body for n in ast.walk(b)):       # (a return leaves the caller either way)
             return None
         b = self.bind(h, st.iter, recv)
         if b is None:
